@@ -159,7 +159,11 @@ func HarnessC15Built(nIn, nOut, calls, consumer int) {
 	w.Convs = []hFuncSpec{spec, twin}
 	w.Errs = []error{nil, fmt.Errorf("built failed"), fmt.Errorf("twin failed")}
 	vnNote(fmt.Sprintf("built%s calls=%d consumer=%d (failure symbolic per call)", hSpecString(spec), calls, consumer))
-	bf, err := w.hBuild(spec)
+	var bopts []Arg
+	if vnBool("withFuncName") {
+		bopts = append(bopts, FuncName("built-function"))
+	}
+	bf, err := w.hBuild(spec, bopts...)
 	vnAssert(err == nil, "C15.built-accepted")
 	tf, err2 := w.hBuild(twin)
 	if err != nil || err2 != nil {
@@ -177,12 +181,24 @@ func HarnessC15Built(nIn, nOut, calls, consumer int) {
 		vnNoteAppend(fmt.Sprintf(" call%d.fails=%v", c, fails))
 		var args []Arg
 		pay := make([]int, nIn)
+		omit := -1
+		if nIn > 0 && c > 0 && vnBool("omit", c) {
+			omit = hPick("omitWhich", nIn, c) // this call leaves one input out: it must fail, not reuse an earlier value
+		}
 		for i, l := range in {
 			pay[i] = vnPayload("arg", c, i)
-			args = append(args, NamedSubtype(l.Name, hMk(l.T, pay[i]), l.Sub))
+			if i != omit {
+				args = append(args, NamedSubtype(l.Name, hMk(l.T, pay[i]), l.Sub))
+			}
 		}
 		w.Log = nil
 		r := bf.Call(args...)
+		if omit >= 0 {
+			vnAssert(r.Err() != nil, "C15.call-without-an-input-fails")
+			vnAssert(len(w.Log) == 0, "C15.callback-not-run-without-its-input")
+			vnCover("C15.omitted-input-checked")
+			continue
+		}
 		vnAssert(len(w.Log) == 1 && w.Log[0].Fn == 1, "C15.callback-ran-once")
 		if len(w.Log) != 1 {
 			return
@@ -263,4 +279,48 @@ func HarnessC15Built(nIn, nOut, calls, consumer int) {
 			vnAssert(false, "C15.built-then-consumer")
 		}
 	}
+}
+
+// HarnessC15Out — a built converter whose output set mixes a named and a type-only
+// value of the same type (declaration order symbolic): a downstream consumer that can
+// only be fed by the type-only output must receive exactly that output.
+func HarnessC15Out(form int) {
+	hOrderSites(0)
+	w := &hWorld{}
+	named := hLabel{Name: "x", T: hTP1}
+	typed := hLabel{T: hTP1}
+	outs := []hLabel{named, typed}
+	typedIdx := 1
+	if vnBool("typedFirst") {
+		outs = []hLabel{typed, named}
+		typedIdx = 0
+	}
+	w.Convs = []hFuncSpec{{ID: 1, Form: form, In: []hLabel{{T: hTP0}}, Out: outs}}
+	// the consumer's parameter y:P1 matches the type-only output (typed -> named, no subtypes), never x:P1
+	w.Target = hFuncSpec{ID: 0, Form: hFormStruct, In: []hLabel{{Name: "y", T: hTP1}}}
+	w.Vals = []hVal{{L: hLabel{T: hTP0}, ID: vnPayload("v")}}
+	vnNote(w.String())
+	r, built, panicked, _ := w.hCall()
+	if !built || panicked {
+		vnAssume(false)
+	}
+	vnAssert(r.Err() == nil, "C15.out.consumer-call-succeeds")
+	if r.Err() != nil {
+		return
+	}
+	var conv, tgt *hExec
+	for i := range w.Log {
+		if w.Log[i].Fn == 1 && conv == nil {
+			conv = &w.Log[i]
+		}
+		if w.Log[i].Fn == 0 {
+			tgt = &w.Log[i]
+		}
+	}
+	vnAssert(conv != nil && tgt != nil, "C15.out.both-ran")
+	if conv == nil || tgt == nil {
+		return
+	}
+	vnAssert(tgt.Recv[0].ID == conv.Out[typedIdx].ID, "C15.out.consumer-receives-the-type-only-output-unchanged")
+	vnCover("C15.out-checked")
 }
